@@ -24,21 +24,27 @@ Print Assumptions C02_check_is_sound.
    a task and the taskwait that joins it the creating task calls nothing at all *)
 Theorem C02_recursive_aln_joins_children : well_joined every_call nsk_recursive_aln = true.
 Proof. vm_compute. reflexivity. Qed.
+Print Assumptions C02_recursive_aln_joins_children.
 Theorem C02_aln_runner_joins_halves : well_joined every_call nsk_aln_runner = true.
 Proof. vm_compute. reflexivity. Qed.
+Print Assumptions C02_aln_runner_joins_halves.
 Theorem C02_bisecting_kmeans_joins_tasks : well_joined every_call nsk_bisecting_kmeans = true.
 Proof. vm_compute. reflexivity. Qed.
+Print Assumptions C02_bisecting_kmeans_joins_tasks.
 Theorem C02_other_regions_spawn_nothing :
   well_joined every_call nsk_create_msa_tree = true /\ well_joined every_call nsk_build_tree_kmeans = true /\
   well_joined every_call nsk_d_estimation = true.
 Proof. vm_compute. repeat split; reflexivity. Qed.
+Print Assumptions C02_other_regions_spawn_nothing.
 
 (* hence: "no merge of two groups starts before both groups are complete" and "the forward and backward
    halves are both finished before they are combined", on every control path *)
 Theorem C02_no_merge_before_children : forall tr b, runs nsk_recursive_aln tr b -> trace_ok every_call false tr = true.
 Proof. intros tr b R. exact (proj1 (well_joined_sound _ _ C02_recursive_aln_joins_children tr b R)). Qed.
+Print Assumptions C02_no_merge_before_children.
 Theorem C02_no_meetup_before_halves : forall tr b, runs nsk_aln_runner tr b -> trace_ok every_call false tr = true.
 Proof. intros tr b R. exact (proj1 (well_joined_sound _ _ C02_aln_runner_joins_halves tr b R)). Qed.
+Print Assumptions C02_no_meetup_before_halves.
 Print Assumptions C02_no_merge_before_children.
 
 (* the shape from which [unfold] is built: two child tasks, the join, then the merge *)
@@ -50,6 +56,7 @@ Proof.
   apply (r_maybe_take _ _ [ESpawn "recursive_aln"] _ false); [repeat constructor|].
   repeat constructor.
 Qed.
+Print Assumptions C02_recursive_aln_shape.
 
 (* (3) schedules: for every series-parallel program whose parallel branches have independent
    (commuting) actions, every linearisation - every order in which a runtime may run the tasks -
@@ -74,6 +81,7 @@ Print Assumptions C02_schedules.
 Theorem C02_merge_after_children : forall c tl tr l, lin merge (unfold (Node c tl tr)) l ->
   exists l', l = (l' ++ [mkMerge (root_id tl) (root_id tr) c])%list /\ lin merge (ParC (unfold tl) (unfold tr)) l'.
 Proof. exact merge_after_children. Qed.
+Print Assumptions C02_merge_after_children.
 
 (* Non-vacuity: a 4-leaf tree, a schedule that interleaves the two subtrees differently from the serial order *)
 Example C02_nonvacuous :
